@@ -95,6 +95,12 @@ def signatures(t, sd):
     # constant results of composite types
     for i, ty in enumerate([BOOL, U8, STR, G.tup(U64, STR), ("sarray", U8, 2), ("darray", BOOL), ADDR]):
         add("const%d" % i, [P(U8)], ty, None)
+    # several methods on one router: the method under test before / between / after siblings with other signatures
+    sibs = [{"name": "sib_a", "params": [P(U64)], "ret": to_json(U64), "echo": 0}, {"name": "sib_b", "params": [P(STR), TX("pay")], "ret": None, "echo": None},
+            {"name": "sib_c", "params": [], "ret": to_json(STR), "echo": None}]
+    for pos in (0, 1, 3):
+        add("multi_pos%d" % pos, [P(U8), P(STR), RF("asset")], STR, 1, siblings=sibs, position=pos)
+        add("multi_tx_pos%d" % pos, [TX("axfer"), P(U64)], U64, 1, siblings=sibs[:2], position=min(pos, 2))
     # overridden names
     add("impl_fn", [P(U64)], U64, 0, registered_name="public_name")
     add("impl_void", [P(STR)], None, None, registered_name="other")
